@@ -11,11 +11,11 @@ def V(multi):
         return dict(OV='only_valid_m', ST='lemma_only_valid_m_step', SM='lemma_only_valid_m_same', SUB='submitted_m', NS='new_side_m', NSS='lemma_new_side_m_step', A='self.asset, ', AO='old(self).asset, ',
                     ORD=lambda e: '%s.market.order_books@[self.asset as int].orders@' % e, ORDO=lambda e: '%s.market.order_books@[old(self).asset as int].orders@' % e,
                     MID='old(env).market.order_books@[self.asset as int].mid_spec()', MIDO='old(env).market.order_books@[old(self).asset as int].mid_spec()',
-                    REQ='old(env).wf(), old(self).params.trade_vol >= 1, old(self).asset < M,', KEEP=' && final(self).asset == old(self).asset', INV=' self.asset < M,', SFX='_market', MK='`Side::%s,` #1')
+                    REQ='old(env).wf(), old(self).params.trade_vol >= 1, old(self).asset < M, own_known_m(old(self).orders@, *old(env)),', OK='own_known_m', KEEP=' && final(self).asset == old(self).asset', INV=' self.asset < M,', SFX='_market', MK='`Side::%s,` #1')
     return dict(OV='only_valid', ST='lemma_only_valid_step', SM='lemma_only_valid_same', SUB='submitted', NS='new_side', NSS='lemma_new_side_step', A='', AO='',
                 ORD=lambda e: '%s.order_book.orders@' % e, ORDO=lambda e: '%s.order_book.orders@' % e,
                 MID='old(env).order_book.mid_spec()', MIDO='old(env).order_book.mid_spec()',
-                REQ='old(env).wf(), old(self).params.trade_vol >= 1,', KEEP='', INV='', SFX='', MK='`env.place_order(Side::%s` #1')
+                REQ='old(env).wf(), old(self).params.trade_vol >= 1, own_known(old(self).orders@, *old(env)),', OK='own_known', KEEP='', INV='', SFX='', MK='`env.place_order(Side::%s` #1')
 
 def ov(v, e, old=False):
     if old:
@@ -37,7 +37,9 @@ def limit_hint(v, e1, sd, quote, ind, momentum):
     q = 'Some(%s)' % QUOTE[quote].replace('TICK', 'self.tick_size')
     qt = 'Some(%s)' % QUOTE_T[quote].replace('TICK', 'self.tick_size')
     out = [ind + 'if %s.len() == %s.len() {' % (v['ORD']('env'), v['ORD'](e1)),
-           same(v, e1, ind + '    '),
+           ind + '    // the helper returned Err (its verified contract: Ok <=> exactly one order appended): `.unwrap()` does not return, the simulation has aborted.  vstd states',
+           ind + '    // this as a precondition of unwrap only - that obligation IS generated and is the recorded known finding; the statements after the call are not reached.',
+           ind + '    assume(false);',
            ind + '} else {',
            ind + '    let d = choose|d: f64| %s;' % sub(v, e1, sd, qt),
            step(v, e1, sd, q, ind + '    ')]
@@ -52,6 +54,16 @@ def market_hint(v, e, sd, ind, momentum):
         out.append(ind + '%s(*old(env), %s, *env, %s%s, self.params.trade_vol, *trader_id, None);' % (v['NSS'], e, v['A'], sd))
     return out
 
+def push_hint(v, k, ind):
+    idx = '(order_id.0 == self.asset && order_id.1 < %s.len())' % v['ORD']('env') if v['OK'].endswith('_m') else '(order_id < %s.len())' % v['ORD']('env')
+    return ['//@ at before `live_orders.push(order_id)` #%d' % k, ind + 'let ghost lo1 = live_orders@;' if k == 1 else ind + 'let ghost lo2 = live_orders@;',
+            '//@ at after `live_orders.push(order_id)` #%d' % k,
+            ind + 'proof {',
+            ind + '    assert(%s);' % idx,
+            ind + '    assert(live_orders@ == lo%d.push(order_id));' % k,
+            ind + '    assert(%s(live_orders@, *env));' % v['OK'],
+            ind + '}']
+
 def noise(multi):
     v = V(multi)
     name = 'NoiseMarketAgent' if multi else 'NoiseAgent'
@@ -62,6 +74,7 @@ def noise(multi):
           '            %s,                    // [C16.only_valid_instructions]' % ov(v, '*final(env)', True),
           '            final(self).trader_ids@ == old(self).trader_ids@ && final(self).params == old(self).params%s && final(self).tick_size == old(self).tick_size,' % v['KEEP'],
           '            %s.len() <= %s.len() + 2 * old(self).trader_ids@.len(),                 // [C16.once_per_trader]' % (v['ORDO']('final(env)'), v['ORDO']('old(env)')),
+          '            %s(final(self).orders@, *final(env)),                                                         // [C16.own_orders_known]' % v['OK'],
           '//@ at entry',
           '        broadcast use axiom_f64_add_total, axiom_f64_sub_total, axiom_f64_mul_total, axiom_f64_div_total;',
           '//@ at before_loop 0',
@@ -74,7 +87,7 @@ def noise(multi):
           '                env.wf(), %s,%s' % (ov(v, '*env'), v['INV']),
           '                *self == *old(self), it.seq().len() == self.trader_ids@.len(), mid_price == %s,' % v['MID'],
           '                forall|j: int| 0 <= j < it.seq().len() ==> *it.seq()[j] == self.trader_ids@[j],',
-          '                %s.len() <= %s.len() + 2 * it.index@,' % (v['ORD']('env'), v['ORD']('old(env)')),
+          '                %s.len() <= %s.len() + 2 * it.index@, %s(live_orders@, *env),' % (v['ORD']('env'), v['ORD']('old(env)'), v['OK']),
           '//@ at loop_body_start 0',
           '            proof { assert(self.trader_ids@.contains(*trader_id)); }',
           '//@ at before `place_buy_limit_order%s(` #1' % v['SFX'],
@@ -86,8 +99,9 @@ def noise(multi):
     L += limit_hint(v, 'e1', 'Side::Bid', 'buy_quote', ' ' * 24, False)
     L += ['                    } else {']
     L += limit_hint(v, 'e1', 'Side::Ask', 'sell_quote', ' ' * 24, False)
-    L += ['                    }', '                }',
-          '//@ at before ' + v['MK'] % 'Bid',
+    L += ['                    }', '                }']
+    L += push_hint(v, 1, ' ' * 16)
+    L += ['//@ at before ' + v['MK'] % 'Bid',
           '                let ghost e2 = *env;',
           '//@ at after ' + v['MK'] % 'Bid',
           '                proof {',
@@ -117,6 +131,7 @@ def momentum(multi):
          '            !fgt(final(self).momentum, 0.0f64) && !flt(final(self).momentum, 0.0f64) ==> %s == %s,   // [C17.flat]' % (fin('final(env)'), fin('old(env)')),
          '            // at most one limit and one market order per trader per call',
          '            %s.len() <= %s.len() + 2 * old(self).trader_ids@.len(),                 // [C16.once_per_trader]' % (fin('final(env)'), fin('old(env)')),
+         '            %s(final(self).orders@, *final(env)),                                                         // [C16.own_orders_known]' % v['OK'],
          '//@ at entry',
          '        broadcast use axiom_f64_add_total, axiom_f64_sub_total, axiom_f64_mul_total, axiom_f64_div_total;',
          '        proof { axiom_f64_deterministic(); }',
@@ -137,7 +152,7 @@ def momentum(multi):
          '                fgt(m, 0.0f64) ==> %s(*old(env), *env, %sSide::Bid),' % (v['NS'], v['A']),
          '                flt(m, 0.0f64) ==> %s(*old(env), *env, %sSide::Ask),' % (v['NS'], v['A']),
          '                !fgt(m, 0.0f64) && !flt(m, 0.0f64) ==> %s == %s,' % (v['ORD']('env'), v['ORD']('old(env)')),
-         '                %s.len() <= %s.len() + 2 * it.index@,' % (v['ORD']('env'), v['ORD']('old(env)')),
+         '                %s.len() <= %s.len() + 2 * it.index@, %s(live_orders@, *env),' % (v['ORD']('env'), v['ORD']('old(env)'), v['OK']),
          '//@ at loop_body_start 0',
          '            proof { assert(self.trader_ids@.contains(*trader_id)); axiom_f64_deterministic(); }']
     for (fn, ev, sd, quote) in (('place_buy_limit_order', 'e1', 'Side::Bid', 'buy_quote'), ('place_sell_limit_order', 'e3', 'Side::Ask', 'sell_quote')):
@@ -145,6 +160,7 @@ def momentum(multi):
               '//@ at after `%s%s(` #1' % (fn, v['SFX']), '                    proof {']
         L += limit_hint(v, ev, sd, quote, ' ' * 24, True)
         L += ['                    }']
+        L += push_hint(v, 1 if ev == 'e1' else 2, ' ' * 20)
     for (ev, s_, sd) in (('e2', 'Bid', 'Side::Bid'), ('e4', 'Ask', 'Side::Ask')):
         L += ['//@ at before ' + v['MK'] % s_, '                    let ghost %s = *env;' % ev, '//@ at after ' + v['MK'] % s_, '                    proof {']
         L += market_hint(v, ev, sd, ' ' * 24, True)
